@@ -123,6 +123,9 @@ def fuzz_stdin(rng, texts):
     return rng.choice([b"\xff\xfe\x00garbage", b"   \n", b"hello", b"(" * 5000, b"1.2.3", "é".encode() * 10])
 
 
+KNOWN_DEEP = "template-nesting-thousands-deep-overflows-tera-stack"
+
+
 def discipline(rc, out, err):
     """None if the outcome is clean, else a description"""
     if panicked(rc, err):
@@ -222,6 +225,45 @@ def run_check(tier, seed):
         if panicked(p.returncode, p.stderr):
             run.add_violation("oracle", {"stream": "closed_stdout", "what": "panic when stdout is a closed pipe", "described": {"argv": argv}, "rc": p.returncode,
                                          "stderr": p.stderr.decode("utf-8", "replace")[:400]}, True)
+
+    # ---------------- stream 3b: templates that are large or deeply nested
+    # Tera's parser and renderer (third-party, recursive) are handed the template text as it is: moderately nested templates must work or
+    # be refused cleanly; nesting / chains thousands deep overflow the stack inside Tera (known finding, listed with this exact input class)
+    def deep(kind, n):
+        if kind == "parens":
+            return "{{ " + "(" * n + "1" + ")" * n + " }}"
+        if kind == "plus_chain":
+            return "{{ 1" + " + 1" * n + " }}"
+        if kind == "if_blocks":
+            return "{% if true %}" * n + "x" + "{% endif %}" * n
+        if kind == "brackets":
+            return "{{ " + "[" * n + "1" + "]" * n + " }}"
+        if kind == "not_chain":
+            return "{{ " + "not " * n + "true }}"
+        return "{{ major" + " | abs" * n + " }}"
+    st = run.streams.setdefault("large_and_nested_templates", {"cases": 0, "clean": 0, "stack_overflow_in_tera(known)": 0})
+    tj = []
+    for kind in ("parens", "plus_chain", "if_blocks", "brackets", "not_chain", "filter_chain"):
+        for n in (3, 40, 150, 3000, 20000 if kind in ("plus_chain", "filter_chain", "not_chain") else 6000):
+            for sub in (["version", "--source=none", "--tag-version=1.2.3"], ["render", "1.2.3"], ["flow", "--source=none", "--tag-version=1.2.3"]):
+                tj.append((kind, n, sub + ["--output-template=" + deep(kind, n)]))
+    tres = run_procs([(a, None) for _, _, a in tj], timeout=60)
+    for (kind, n, argv), (rc, out, err) in zip(tj, tres):
+        st["cases"] += 1
+        run.evaluations += 1
+        bad = discipline(rc, out, err)
+        overflow = rc in (134, -6, -11, 139) and b"overflowed its stack" in err
+        if bad is None:
+            st["clean"] += 1
+            if n <= 150 and kind in ("parens", "plus_chain", "if_blocks", "filter_chain") and rc != 0:
+                run.add_violation("oracle", {"stream": "large_and_nested_templates", "what": "a moderately nested template is refused", "described": {"kind": kind, "depth": n, "argv": argv[:-1] + [argv[-1][:200] + "..."]},
+                                             "stderr": err.decode("utf-8", "replace")[:300]}, True)
+        elif overflow and n >= 500:
+            st["stack_overflow_in_tera(known)"] += 1
+            run.known_hits[KNOWN_DEEP] += 1
+        else:
+            run.add_violation("oracle", {"stream": "large_and_nested_templates", "what": bad, "described": {"kind": kind, "depth": n, "argv": argv[:-1] + [argv[-1][:200] + "..."]},
+                                         "rc": rc, "stderr": err.decode("utf-8", "replace")[:400]}, True)
 
     # ---------------- stream 4: every git invocation failing in turn
     root = tempfile.mkdtemp(prefix="zv13-")
